@@ -20,7 +20,7 @@ Qed.
 Lemma safe_p_next : safe_m p_next.
 Proof.
   intros s H. unfold p_next. destruct (keep s); [exact H|]. destruct (rs s) as [|[t e|e|] r] eqn:E; cbn [rs].
-  - rewrite E. exact H.
+  - exact I.
   - intros Hin. apply H. right. exact Hin.
   - intros Hin. apply H. right. exact Hin.
   - apply H. left. reflexivity.
